@@ -2,10 +2,14 @@
   Model of asynq/generator.py: `@async_generator()`, `Value`, `_AsyncGenerator.send/_send_inner/_get_one_value/next`,
   `END_OF_GENERATOR`, and the consumer loops `list_of_generator` and `take_first`.
 
-  A generator body is a list of steps `await b | value v`: `await b` is `yield <some future>` (the body waits for
-  its result; `b` = that future cannot complete before the scheduler flushes a batch, so a task awaiting it is
-  parked, started but not computed), `value v` is `yield Value(v)`.  Values are identity tokens (Nat) - whatever the
-  payload is, also when it is itself a future.  Awaited futures succeed
+  A generator body is a list of steps `await b | value v | valueEnd`: `await b` is `yield <some future>` (the body
+  waits for its result; `b` = that future cannot complete before the scheduler flushes a batch, so a task awaiting it
+  is parked, started but not computed), `value v` is `yield Value(v)` for a payload `v` that is any object OTHER than
+  the marker END_OF_GENERATOR (identity tokens (Nat); also when the payload is itself a future), and `valueEnd` is
+  `yield Value(END_OF_GENERATOR)`: the one payload the code cannot tell from its own end-of-generator signal
+  (generator.py:96,110 test `value is END_OF_GENERATOR`).  The statement of C17 is about bodies without `valueEnd`
+  (`noMarker`, an explicit hypothesis of the theorems); `valueEnd` is modelled so that the hypothesis can be stated,
+  shown necessary, and the code's behaviour there is pinned by the correspondence run.  Awaited futures succeed
   (assumption).  The state has one field per attribute of `_AsyncGenerator` plus the position of the underlying
   Python generator; the futures handed to the caller by `next()` are kept in `futs` so that a history of
   caller operations (next / compute a future / take_first / list_of_generator / compute a future while a sibling
@@ -15,10 +19,18 @@ namespace AsynqModel.Generator
 
 inductive Step where
   | await (blocks : Bool)   -- `yield <future>`; `blocks` = the future needs a batch flush to complete
-  | value (v : Nat)     -- `yield Value(v)`
+  | value (v : Nat)     -- `yield Value(v)`, `v` any object other than END_OF_GENERATOR
+  | valueEnd            -- `yield Value(END_OF_GENERATOR)`: the payload is the marker object itself
   deriving Repr, DecidableEq, Inhabited
 
 abbrev Body := List Step
+
+/-- no `Value(END_OF_GENERATOR)` in the body: the hypothesis under which C17 is stated -/
+def noMarker : Body → Bool
+  | [] => true
+  | .valueEnd :: _ => false
+  | .await _ :: r => noMarker r
+  | .value _ :: r => noMarker r
 
 /-- what a consumer receives for one task -/
 inductive Item where
@@ -28,7 +40,8 @@ inductive Item where
 
 /-- a future that `next()` handed to the caller -/
 inductive Fut where
-  | const (v : Nat)     -- ConstFuture(first_value.value): computed from construction
+  | const (r : Item)    -- ConstFuture(first_value.value): computed from construction (`.endMarker` iff the
+                        -- payload was the marker object)
   | pending (blocks : Bool)   -- `_send_inner.asynq(first_value)`, not computed yet (started or not);
                               -- `blocks` = `first_value` needs a batch flush
   | done (r : Item)     -- that task, computed
@@ -46,7 +59,7 @@ inductive Exc where
   deriving Repr, DecidableEq, Inhabited
 
 inductive Res where
-  | fut (computed : Option Nat)   -- next(): a future; `some v` = `is_computed()` with value v
+  | fut (computed : Option Item)  -- next(): a future; `some v` = `is_computed()` with value v
   | item (r : Item)               -- value of a future
   | lst (l : List Item)           -- list returned by list_of_generator / take_first
   | raised (x : Exc)
@@ -101,7 +114,7 @@ def getOneValue (s : St) : St × Option Step :=
 
 inductive SendRes where
   | raised (x : Exc)
-  | const (v : Nat)     -- `return ConstFuture(first_value.value)`
+  | const (r : Item)    -- `return ConstFuture(first_value.value)`
   | task (blocks : Bool)   -- `return task` (and `last_task = task`); `blocks`: the first awaited future
   deriving Repr, DecidableEq, Inhabited
 
@@ -112,17 +125,19 @@ def send (s : St) (ref : LastRef) : St × SendRes :=
   else
     match getOneValue s with                              -- 147
     | (s1, none) => (s1, .raised .stopIteration)          -- StopIteration leaves _get_one_value and send
-    | (s1, some (.value v)) => (s1, .const v)             -- 148-149 (last_task is NOT updated)
+    | (s1, some (.value v)) => (s1, .const (.val v))      -- 148-149 (last_task is NOT updated)
+    | (s1, some .valueEnd) => (s1, .const .endMarker)     -- the same lines; `first_value.value` is the marker
     | (s1, some (.await b)) => ({ s1 with lastTask := some ref }, .task b)   -- 150-152
 
 /-- the `while True` of `_send_inner` (generator.py:158-166), after `yield first_task` returned; `_send_inner` never
     assigns `last_task` -/
 def sendInnerLoop : Nat → St → St × Item
-  | 0, s => (s, .endMarker)   -- out of fuel: never reached with the fuel `sendInner` gives (drain_spec)
+  | 0, s => (s, .endMarker)   -- out of fuel: never reached with the fuel `sendInner` gives (sendInnerLoop_spec)
   | fuel + 1, s =>
     match getOneValue s with
     | (s1, none) => (s1, .endMarker)                   -- except StopIteration: return END_OF_GENERATOR
     | (s1, some (.value v)) => (s1, .val v)            -- return value.value
+    | (s1, some .valueEnd) => (s1, .endMarker)         -- return value.value, which is the marker (NOT stopped)
     | (s1, some (.await _)) => sendInnerLoop fuel s1   -- yield_result = yield value
 
 /-- computing a `_send_inner` task (to the end, however often it is parked on the way) -/
@@ -135,6 +150,7 @@ def startLoop : Nat → St → St × Option Item
     match getOneValue s with
     | (s1, none) => (s1, some .endMarker)
     | (s1, some (.value v)) => (s1, some (.val v))
+    | (s1, some .valueEnd) => (s1, some .endMarker)
     | (s1, some (.await true)) => (s1, none)             -- `yield value` parks the task
     | (s1, some (.await false)) => startLoop fuel s1
 
@@ -146,7 +162,7 @@ def startTask (s : St) (firstBlocks : Bool) : St × Option Item :=
 def compute (s : St) (k : Nat) : St × Res :=
   match s.futs[k]? with
   | none => (s, .raised .other)
-  | some (.const v) => (s, .item (.val v))
+  | some (.const r) => (s, .item r)
   | some (.done r) => (s, .item r)
   | some (.pending _) =>
     let (s1, r) := sendInner s
@@ -156,19 +172,19 @@ def compute (s : St) (k : Nat) : St × Res :=
 def next (s : St) : St × Res :=
   match send s (.handle s.futs.length) with
   | (s1, .raised x) => (s1, .raised x)
-  | (s1, .const v) => ({ s1 with futs := s1.futs ++ [.const v] }, .fut (some v))
+  | (s1, .const r) => ({ s1 with futs := s1.futs ++ [.const r] }, .fut (some r))
   | (s1, .task b) => ({ s1 with futs := s1.futs ++ [.pending b] }, .fut none)
 
 /-- one trip of `for task in generator:` + `value = yield task` (generator.py:94-95 and 108-109) -/
 def pull (s : St) : St × Except Exc Item :=
   match send s .internal with
   | (s1, .raised x) => (s1, .error x)
-  | (s1, .const v) => (s1, .ok (.val v))
+  | (s1, .const r) => (s1, .ok r)
   | (s1, .task _) => let (s2, r) := sendInner s1; (s2, .ok r)
 
 /-- `list_of_generator` (generator.py:90-99) -/
 def listLoop : Nat → St → List Item → St × Res
-  | 0, s, _ => (s, .raised .other)    -- out of fuel: never reached (listOf_spec)
+  | 0, s, _ => (s, .raised .other)    -- out of fuel: never reached (listLoop_within_fuel)
   | fuel + 1, s, data =>
     match pull s with
     | (s1, .error .stopIteration) => (s1, .lst data)          -- the for loop ends; return data
@@ -180,7 +196,7 @@ def listOf (s : St) : St × Res := listLoop (s.rest.length + 1) s []
 
 /-- `take_first`'s loop (generator.py:108-114); `i` is the `enumerate` index, which counts tasks -/
 def takeLoop : Nat → Nat → Nat → St → List Item → St × Res
-  | 0, _, _, s, _ => (s, .raised .other)   -- out of fuel: never reached (takeFirst_spec)
+  | 0, _, _, s, _ => (s, .raised .other)   -- out of fuel: never reached (takeLoop_within_fuel)
   | fuel + 1, n, i, s, ret =>
     match pull s with
     | (s1, .error .stopIteration) => (s1, .lst ret)
@@ -208,7 +224,7 @@ def stepBasic (s : St) : Op → St × Res
 def par (s : St) (k : Nat) (a : Adv) : St × Res × Option (Bool × Res) :=
   match s.futs[k]? with
   | none => (s, .raised .other, none)
-  | some (.const v) => let (s1, r2) := stepBasic s a.toOp; (s1, .item (.val v), some (true, r2))
+  | some (.const x) => let (s1, r2) := stepBasic s a.toOp; (s1, .item x, some (true, r2))
   | some (.done x) => let (s1, r2) := stepBasic s a.toOp; (s1, .item x, some (true, r2))
   | some (.pending b) =>
     match startTask s b with
@@ -253,7 +269,10 @@ def finalState (s : St) : List Op → St
 
     for task in inner:  value = yield task;  if value is END_OF_GENERATOR: continue;  yield Value(value)
 
-  As a body of its own the outer generator awaits each task of the inner one and then yields its Value. -/
+  `outerResume` is that loop, as the underlying Python generator of the outer `_AsyncGenerator`, written over the
+  model of the inner generator (`send`, `sendInner`); `wrap` is the closed form of the list of steps it yields
+  (theorem `C17_nested_loop`: `outerBody … (init b) .atFor = wrap b`), which is what the driver feeds to the model
+  for the nested cases of the correspondence run. -/
 
 /-- skip the awaits a `_send_inner` task consumes -/
 def skipAwaits : Body → Body
@@ -265,13 +284,53 @@ def leadBlock : Body → Bool
   | .await b :: r => b || leadBlock r
   | _ => false
 
-/-- `inTask` = the outer generator is awaiting an inner task whose Value has not been produced yet -/
+/-- where the Python generator of the outer generator is suspended -/
+inductive Phase where
+  | atFor                 -- not started, or suspended at `yield Value(value)`: resuming it goes to the `for` header
+  | gotConst (r : Item)   -- suspended at `value = yield task`, `task` = the ConstFuture(r) that next(inner) returned
+  | gotTask               -- suspended at `value = yield task`, `task` = the `_send_inner` task next(inner) returned
+  | done                  -- returned (the `for` loop ended) or raised
+  deriving Repr, DecidableEq, Inhabited
+
+/-- resuming the outer Python generator (`self.generator.send(x)` of the OUTER `_AsyncGenerator`, where `x` is the
+    result of the future it yielded last) with the inner generator in state `i`: the next step it yields, or the
+    exception it ends with.  An inner task it yielded has been computed by then (the outer `_send_inner`/consumer
+    yielded it to the scheduler): the inner state advances by `sendInner`.  The yielded inner task parks the task
+    that awaits it iff it parks itself (`startTask … = none`).  `outerFor` is the `for` header. -/
+def outerFor (i : St) : (St × Phase) × Except Exc Step :=
+  match send i .internal with                  -- `for task in inner:` = next(inner)
+  | (i1, .raised x) => ((i1, .done), .error x) -- StopIteration ends the loop and the function; others propagate
+  | (i1, .const r) => ((i1, .gotConst r), .ok (.await false))                          -- value = yield task
+  | (i1, .task bb) => ((i1, .gotTask), .ok (.await ((startTask i1 bb).2 == none)))     -- value = yield task
+
+def outerResume (i : St) : Phase → (St × Phase) × Except Exc Step
+  | .done => ((i, .done), .error .stopIteration)     -- a finished Python generator raises StopIteration
+  | .atFor => outerFor i
+  | .gotConst .endMarker => outerFor i               -- if value is END_OF_GENERATOR: continue
+  | .gotConst (.val v) => ((i, .atFor), .ok (.value v))          -- yield Value(value)
+  | .gotTask =>
+    match sendInner i with
+    | (i1, .endMarker) => outerFor i1
+    | (i1, .val v) => ((i1, .atFor), .ok (.value v))
+
+/-- the list of steps the outer Python generator yields until it ends (at most `n` of them) -/
+def outerBody : Nat → St → Phase → Body
+  | 0, _, _ => []
+  | n + 1, i, ph =>
+    match outerResume i ph with
+    | ((i1, ph1), .ok st) => st :: outerBody n i1 ph1
+    | (_, .error _) => []
+
+/-- closed form of `outerBody`; `inTask` = the outer generator is awaiting an inner task whose Value has not been
+    produced yet -/
 def wrapAux : Bool → Body → Body
   | _, [] => []
   | false, .value v :: r => .await false :: .value v :: wrapAux false r   -- inner ConstFuture: await it, re-yield
+  | false, .valueEnd :: r => .await false :: wrapAux false r              -- inner ConstFuture(marker): await, skip
   | false, .await b :: r => .await (b || leadBlock r) :: wrapAux true r   -- inner task: await it (parks if it parks)
   | true, .await _ :: r => wrapAux true r                           -- consumed inside the inner task
   | true, .value v :: r => .value v :: wrapAux false r              -- the inner task's result, re-yielded
+  | true, .valueEnd :: r => wrapAux false r                         -- the inner task's result is the marker: skipped
 
 def wrap (b : Body) : Body := wrapAux false b
 
@@ -280,12 +339,23 @@ def wrapN : Nat → Body → Body
   | k + 1, b => wrap (wrapN k b)
 
 /-! ## The property C17 as an observer over the observations alone (a sequential reference: the generator is
-    a cursor over its body) -/
+    a cursor over its body).  C17 is stated for bodies without `Value(END_OF_GENERATOR)` (`noMarker`): for such a
+    payload "list_of_generator returns all the Values" and "END_OF_GENERATOR never appears in the result" contradict
+    each other, so no implementation can satisfy the statement there (see `C17_marker_payload_outside`). -/
 
+/-- every Value payload in program order (the marker object as `.endMarker`) -/
+def payloads : Body → List Item
+  | [] => []
+  | .await _ :: r => payloads r
+  | .value v :: r => .val v :: payloads r
+  | .valueEnd :: r => .endMarker :: payloads r
+
+/-- the payloads other than the marker; for a `noMarker` body: all of them (`payloads_eq_values`) -/
 def values : Body → List Nat
   | [] => []
   | .await _ :: r => values r
   | .value v :: r => v :: values r
+  | .valueEnd :: r => values r
 
 /-- the body after its n-th Value (`[]` if it has fewer): how far `take_first(gen, n)` may advance -/
 def dropValues : Nat → Body → Body
@@ -293,17 +363,28 @@ def dropValues : Nat → Body → Body
   | _ + 1, [] => []
   | n + 1, .await _ :: r => dropValues (n + 1) r
   | n + 1, .value _ :: r => dropValues n r
+  | n + 1, .valueEnd :: r => dropValues (n + 1) r
+
+/-- what the reference knows about a future the caller holds -/
+inductive Known where
+  | val (x : Item)             -- computed, with this value
+  | pending (blocks : Bool)    -- a task that is not computed yet; `blocks` = its first awaited future needs a flush
+  deriving Repr, DecidableEq, Inhabited
+
+def Known.isPending : Known → Bool
+  | .pending _ => true
+  | .val _ => false
 
 structure Watch where
   rest : Body                    -- what the reference has not delivered yet
   fin : Bool                     -- the reference has seen the end of the body
-  known : List (Option Item)     -- per future the caller holds: its value, `none` = not computed yet
+  known : List Known             -- per future the caller holds
   deriving Repr, DecidableEq, Inhabited
 
 def watchInit (b : Body) : Watch := { rest := b, fin := false, known := [] }
 
 /-- a previously returned task has not been computed -/
-def Watch.blocked (w : Watch) : Bool := w.known.any (· == none)
+def Watch.blocked (w : Watch) : Bool := w.known.any Known.isPending
 
 def Res.hasMarker : Res → Bool
   | .lst l => l.any (· == .endMarker)
@@ -312,8 +393,8 @@ def Res.hasMarker : Res → Bool
 /-- the outstanding task k runs to its end: it delivers the next Value after the awaits, or END_OF_GENERATOR -/
 def drainWatch (w : Watch) (k : Nat) : Watch × Item :=
   match skipAwaits w.rest with
-  | .value v :: r => ({ w with rest := r, known := w.known.set k (some (.val v)) }, .val v)
-  | _ => ({ rest := [], fin := true, known := w.known.set k (some .endMarker) }, .endMarker)
+  | .value v :: r => ({ w with rest := r, known := w.known.set k (.val (.val v)) }, .val v)
+  | _ => ({ rest := [], fin := true, known := w.known.set k (.val .endMarker) }, .endMarker)
 
 /-- one observation of a basic operation against the reference; returns the clause that fails -/
 def watchBasic (total : Nat) (w : Watch) (ob : Obs) : Except String Watch :=
@@ -330,28 +411,32 @@ def watchBasic (total : Nat) (w : Watch) (ob : Obs) : Except String Watch :=
         if ob.res == .raised .stopIteration && ob.pos == total && ob.fin then .ok { w with fin := true }
         else .error "exhausted"
       | .value v :: r =>
-        if ob.res == .fut (some v) && ob.pos + r.length == total && ob.fin == w.fin then
-          .ok { w with rest := r, known := w.known ++ [some (.val v)] }
+        if ob.res == .fut (some (.val v)) && ob.pos + r.length == total && ob.fin == w.fin then
+          .ok { w with rest := r, known := w.known ++ [.val (.val v)] }
         else .error "next-value"
-      | .await _ :: r =>
+      | .await b :: r =>
         if ob.res == .fut none && ob.pos + r.length == total && ob.fin == w.fin then
-          .ok { w with rest := r, known := w.known ++ [none] }
+          .ok { w with rest := r, known := w.known ++ [.pending b] }
         else .error "next-task"
+      | .valueEnd :: _ => .error "marker-payload"     -- outside the statement (`spec` demands `noMarker`)
   | .compute k =>
     match w.known[k]? with
-    | none => if ob.res == .raised .other then .ok w else .error "no-such-future"
-    | some (some x) =>
+    | none =>
+      -- a future the caller does not hold (malformed history): the harness's own error, nothing may have moved
+      if ob.res == .raised .other && ob.pos + w.rest.length == total && ob.fin == w.fin then .ok w
+      else .error "no-such-future"
+    | some (.val x) =>
       if ob.res == .item x && ob.pos + w.rest.length == total && ob.fin == w.fin then .ok w
       else .error "future-stable"
-    | some none =>
+    | some (.pending _) =>
       match skipAwaits w.rest with
       | .value v :: r =>
         if ob.res == .item (.val v) && ob.pos + r.length == total && ob.fin == w.fin then
-          .ok { w with rest := r, known := w.known.set k (some (.val v)) }
+          .ok { w with rest := r, known := w.known.set k (.val (.val v)) }
         else .error "task-value"
       | _ =>
         if ob.res == .item .endMarker && ob.pos == total && ob.fin then
-          .ok { rest := [], fin := true, known := w.known.set k (some .endMarker) }
+          .ok { rest := [], fin := true, known := w.known.set k (.val .endMarker) }
         else .error "task-end"
   | .take n =>
     if n == 0 then
@@ -403,12 +488,16 @@ def watchStep (total : Nat) (w : Watch) (ob : Obs) : Except String Watch :=
     | some (d, r2) =>
       match w.known[k]? with
       | none => .error "no-such-future"
-      | some (some x) =>
+      | some (.val x) =>
         if ob.res != .item x || !d then .error "future-stable"
         else watchBasic total w (sibObs ob a r2)
-      | some none =>
+      | some (.pending pb) =>
         let (w1, x) := drainWatch w k
+        -- the task cannot be computed before a batch is flushed iff its first await or one of the awaits it
+        -- consumes before its Value needs a flush; the sibling runs before any flush
+        let parks := pb || leadBlock w.rest
         if ob.res != .item x then .error "task-result"
+        else if d == parks then .error "task-parked"
         else if d then watchBasic total w1 (sibObs ob a r2)     -- the task was computed when the sibling ran
         else
           -- the task had started but was NOT computed when the sibling advanced: the guard must still hold
@@ -423,15 +512,25 @@ def watchRun (total : Nat) (w : Watch) : List Obs → Except String Watch
     | .ok w' => watchRun total w' obs
     | .error e => .error (e ++ "@" ++ ob.op.name)
 
-/-- `Spec.C17`: the whole history is accepted -/
+/-- `Spec.C17`: the body is one the statement is about and the whole history is accepted -/
 def spec (b : Body) (obs : List Obs) : Bool :=
+  noMarker b &&
   match watchRun b.length (watchInit b) obs with
   | .ok _ => true
   | .error _ => false
 
 def specClause (b : Body) (obs : List Obs) : String :=
+  if !noMarker b then "marker-payload" else
   match watchRun b.length (watchInit b) obs with
   | .ok _ => "ok"
   | .error e => e
+
+/-- what is left of the statement for a body WITH a `Value(END_OF_GENERATOR)` (outside C17): every await is
+    resumed with the awaited result and END_OF_GENERATOR appears in no list - the correspondence run judges the rest -/
+def outsideClause (obs : List Obs) : String :=
+  if obs.any (fun o => o.bad != 0) then "await-result"
+  else if obs.any (fun o => o.res.hasMarker || (match o.sib with | some (_, r) => r.hasMarker | none => false)) then
+    "end-marker"
+  else "ok"
 
 end AsynqModel.Generator
